@@ -136,11 +136,13 @@ OPS = "cubed.core.ops"
 
 
 class CopyOpSpec(FuncSpec):
-    props = ("C14", "C05", "C01", "C12", "C17")
+    props = ("C14", "C05", "C01", "C12", "C17", "C03")
     explicit = (ValueError, TypeError, NotImplementedError, IndexError)
+    prop_obligations = {"C03": (".mem:",)}
 
     def install(self, c):
         gb.install(c)
+        c.meter_memory = True
 
     def raises(self, c, a, k, e):
         if isinstance(e.etype, type) and issubclass(e.etype, self.explicit):
